@@ -10,19 +10,36 @@
    order of Begin events is allowed), every command semantics `act`, every injective record hash `H`,
    every well-formed repository, every plz-out left behind by earlier builds whose records are
    truthful (the empty one in particular), and every family of requested target sets whose clean
-   build succeeds.  This file holds only the statement, the theorem and non-vacuity examples. *)
-From PlzV Require Import Base.Harness Model.C31 Proof.C31.
+   build succeeds, and every state of the directory cache shared by the processes ("none configured",
+   the empty one, or any cache whose entries were stored by correct builds): a target found in the cache
+   is retrieved instead of built, what is built is stored.  This file holds only the statement, the
+   theorems and non-vacuity examples. *)
+From PlzV Require Import Base.Harness Model.C31 Proof.C31 Proof.C31_Progress.
 
-Definition C31_statement : Prop :=
+(* Granularity.  The transition system keeps plz-out as a map from LABELS to outputs; that is plz-out
+   itself as long as distinct targets write distinct paths.  Two filegroups may legally write the same
+   path; for them the statement is made against the path-level model of filegroupBuilder.Build (Model/C31.v,
+   SharedDir): two processes, each building a filegroup whose source is the same directory of n files and
+   then a genrule reading it, the two filegroups being DIFFERENT targets (different flocks).  The property at
+   full strength is the conjunction; the code violates the second half (C31_refuted, reproduced on the real
+   binary: known findings shared-dir-filegroups-race-...), and C31_partial is the first half for every
+   repository outside the executable defect class shared_output_class. *)
+Definition C31_shared_dir_statement : Prop :=
+  forall (n : nat) (stale : bool) (sched : list bool),
+    (* no process fails, and a genrule that has read the directory saw all n files with the current content *)
+    dsafe n (drun false n sched (dinit n stale)) = true.
+
+Definition C31_label_statement (in_scope : list target -> Prop) : Prop :=
   forall (key : Type) (key_eqb : key -> key -> bool) (H : target -> list val -> key)
          (act : target -> list val -> option val),
     (forall a b, key_eqb a b = true <-> a = b) ->
     (forall t a b, H t a = H t b -> a = b) ->                       (* H_inj *)
-  forall r : list target, wf_repo r = true ->
+  forall r : list target, wf_repo r = true -> in_scope r ->
   forall s0 : store key, trusted key H act r s0 ->                  (* Trust; holds for the empty plz-out *)
+  forall oc : option (cache key), cache_trusted key H act r oc ->   (* the shared dir cache: None, empty, or truthful *)
   forall todos : list (list target), requests_ok act r todos ->     (* one list per process; the clean build of each target succeeds *)
   forall sched : list ev,
-    let st := run key key_eqb H act true sched (init key s0 todos) in
+    let st := run key key_eqb H act true sched (init_c key s0 oc todos) in
     (* no process fails, at any point of any schedule *)
     all_ok key st = true
     (* once all have exited, every requested target carries the outputs of the clean build *)
@@ -31,15 +48,41 @@ Definition C31_statement : Prop :=
     (* and nothing else in plz-out has been touched *)
     /\ (forall l, (forall ts t, In ts todos -> In t ts -> t_label t <> l) -> st_store key st l = s0 l)
     (* so plz-out is exactly what ONE process building the union leaves behind, whatever its schedule *)
-    /\ (forall single sched1, requests_ok act r [single] ->
+    /\ (forall single oc1 sched1, cache_trusted key H act r oc1 -> requests_ok act r [single] ->
           (forall l, In l (map t_label (concat todos)) <-> In l (map t_label single)) ->
-          let st1 := run key key_eqb H act true sched1 (init key s0 [single]) in
+          let st1 := run key key_eqb H act true sched1 (init_c key s0 oc1 [single]) in
           finished key st = true -> finished key st1 = true ->
           all_ok key st1 = true /\ forall l, sval key (st_store key st) l = sval key (st_store key st1) l).
 
-Theorem C31_full : C31_statement.
-Proof. exact c31_full_proof. Qed.
-Print Assumptions C31_full.
+Definition C31_statement : Prop := C31_label_statement (fun _ => True) /\ C31_shared_dir_statement.
+
+(* REFUTED: one file, the output directory left by an earlier build of older sources.  Both processes exit
+   successfully, but the genrule of process 0 read the shared directory after process 1 - which had looked
+   while process 0 was in the middle of replacing it - unlinked the file process 0 had just linked: it was
+   built from an EMPTY directory.  (dir_fail_witness: on another schedule process 1 fails with ENOTEMPTY.) *)
+Theorem C31_refuted : ~ C31_statement.
+Proof.
+  intros [_ Hd]. specialize (Hd 1 true dw_silent).
+  destruct dir_silent_witness as (_ & _ & _ & Hbad). cbv zeta in Hbad. rewrite Hd in Hbad. discriminate.
+Qed.
+Print Assumptions C31_refuted.
+
+Example C31_refuted_witnesses :
+  (let st := drun false 1 dw_silent (dinit 1 true) in
+   dfinished st = true /\ d_p0 st = PDone (Some []) /\ d_p1 st = PDone (Some (complete 1)) /\ dsafe 1 st = false)
+  /\ (let st := drun false 1 dw_fail (dinit 1 true) in d_p0 st = PDone (Some (complete 1)) /\ d_p1 st = PFail)
+  (* control: with one lock for both processes every interleaving is fine (exhaustive, n = 2 and 3) *)
+  /\ dexplore true 2 24 (dinit 2 true) = true /\ dexplore true 3 32 (dinit 3 true) = true
+  /\ dexplore false 2 24 (dinit 2 true) = false.
+Proof.
+  destruct dir_same_lock_explored as (A & _ & B & _ & C & _).
+  exact (conj dir_silent_witness (conj dir_fail_witness (conj A (conj B C)))).
+Qed.
+
+(* PARTIAL: everything else.  For every repository in which no two targets write the same path: *)
+Theorem C31_partial : C31_label_statement (fun r => shared_output_class r = None).
+Proof. exact (fun key key_eqb H act Hk Hinj r Hwf _ => c31_full_proof key key_eqb H act Hk Hinj r Hwf). Qed.
+Print Assumptions C31_partial.
 
 (* The lock is the hypothesis that carries the theorem: the SAME system without the flock
    (use_lock = false) has a schedule of two processes after which one of them has failed. *)
@@ -56,8 +99,8 @@ Theorem C31_at_most_once :
          (act : target -> list val -> option val),
     (forall a b, key_eqb a b = true <-> a = b) -> (forall t a b, H t a = H t b -> a = b) ->
   forall r, wf_repo r = true -> forall s0, trusted key H act r s0 ->
-  forall todos sched, requests_ok act r todos ->
-    let st := run key key_eqb H act true sched (init key s0 todos) in
+  forall todos oc sched, cache_trusted key H act r oc -> requests_ok act r todos ->
+    let st := run key key_eqb H act true sched (init_c key s0 oc todos) in
     (forall i, NoDup (i_ran (st_inv key st i)))
     /\ (forall i j l, In l (i_ran (st_inv key st i)) -> In l (i_ran (st_inv key st j)) -> i = j).
 Proof. exact c31_at_most_once. Qed.
@@ -72,11 +115,56 @@ Theorem C31_no_deadlock :
          (act : target -> list val -> option val),
     (forall a b, key_eqb a b = true <-> a = b) -> (forall t a b, H t a = H t b -> a = b) ->
   forall r, wf_repo r = true -> forall s0, trusted key H act r s0 ->
-  forall todos sched, requests_ok act r todos -> (forall ts, In ts todos -> deps_closed ts) ->
-    let st := run key key_eqb H act true sched (init key s0 todos) in
+  forall todos oc sched, cache_trusted key H act r oc ->
+    requests_ok act r todos -> (forall ts, In ts todos -> deps_closed ts) ->
+    let st := run key key_eqb H act true sched (init_c key s0 oc todos) in
     finished key st = false -> exists e, step key key_eqb H act true st e <> None.
 Proof. exact c31_no_deadlock. Qed.
 Print Assumptions C31_no_deadlock.
+
+(* what `plz build <labels>` works on (plan) contains the dependencies of its targets, for every
+   well-formed repository and every request: the hypothesis of C31_no_deadlock always holds *)
+Theorem C31_plan_closed : forall r req, wf_repo r = true -> deps_closed (plan r req).
+Proof. exact plan_deps_closed. Qed.
+Print Assumptions C31_plan_closed.
+
+(* every enabled event strictly lowers the measure mu (3 per (process, target) pair not started, 2 per pair
+   holding the lock before its outputs are touched, 1 per pair whose outputs are being replaced), with or
+   without the lock; mu is 0 exactly when every process has exited *)
+Theorem C31_measure :
+  forall (key : Type) (key_eqb : key -> key -> bool) (H : target -> list val -> key)
+         (act : target -> list val -> option val) (use_lock : bool) (st : state key),
+    (forall e st', step key key_eqb H act use_lock st e = Some st' -> mu key st' < mu key st)
+    /\ (mu key st = 0 <-> finished key st = true).
+Proof. exact (fun key key_eqb H act lk st => conj (fun e st' => step_decreases key key_eqb H act lk st e st') (mu_zero_finished key st)). Qed.
+Print Assumptions C31_measure.
+
+(* TERMINATION ("each exits"): the processes work on plan r req.  From EVERY reachable state there is a
+   finite run to `finished`, of at most mu <= 3 * (sum of the plan sizes) events; no continuation of any
+   kind contains more than mu enabled events (so every scheduler that keeps taking enabled events - every
+   fair one - has finished after at most that many); and as long as it has not finished some event is enabled. *)
+Theorem C31_terminates :
+  forall (key : Type) (key_eqb : key -> key -> bool) (H : target -> list val -> key)
+         (act : target -> list val -> option val),
+    (forall a b, key_eqb a b = true <-> a = b) -> (forall t a b, H t a = H t b -> a = b) ->
+  forall r, wf_repo r = true -> forall s0, trusted key H act r s0 ->
+  forall oc, cache_trusted key H act r oc ->
+  forall reqs : list (list str), requests_ok act r (map (plan r) reqs) ->
+  forall sched,
+    let st := run key key_eqb H act true sched (init_c key s0 oc (map (plan r) reqs)) in
+    (exists sched', length sched' <= mu key st /\ finished key (run key key_eqb H act true sched' st) = true)
+    /\ mu key st <= 3 * length (concat (map (plan r) reqs))
+    /\ (forall sched', effective key key_eqb H act true st sched' + mu key (run key key_eqb H act true sched' st) <= mu key st)
+    /\ (forall sched', finished key (run key key_eqb H act true sched' st) = false ->
+          exists e, step key key_eqb H act true (run key key_eqb H act true sched' st) e <> None).
+Proof. exact c31_terminates_plan. Qed.
+Print Assumptions C31_terminates.
+
+Example C31_terminates_nonvacuous :
+  requests_ok act_cmd ex_repo (map (plan ex_repo) [[s "//p:b"]; [s "//p:b"]])
+  /\ map (plan ex_repo) [[s "//p:b"]; [s "//p:b"]] = [ex_repo; ex_repo]
+  /\ mu ckey (cinit_c (empty_store ckey) (Some (empty_cache ckey)) [ex_repo; ex_repo]) = 12.
+Proof. exact ex_plan_nonvacuous. Qed.
 
 Example C31_no_deadlock_nonvacuous :
   (forall ts, In ts [ex_repo; ex_repo] -> deps_closed ts)
@@ -93,15 +181,35 @@ Print Assumptions C31_events_match_source.
 (* Non-vacuity: the hypotheses hold for the instance used by the correspondence check, on a
    repository where two processes build the same two targets; the run finishes, the second target
    is built from the first, and each command ran exactly once (one process each). *)
+(* the classifier fires exactly on a common path: two filegroups of ONE package with the same source file *)
+Example C31_class_nonvacuous :
+  shared_output_class ex_repo = None
+  /\ shared_output_class [ex_fg (s "//p:fga"); ex_a; ex_fg (s "//p:fgb")] = Some (s "two-targets-write-the-same-output-path")
+  /\ shared_output_class [ex_fg (s "//p:fga"); ex_fg (s "//q:fgb")] = None.
+Proof. exact ex_classes. Qed.
+
 Example C31_nonvacuous :
   (forall a b, ckey_eqb a b = true <-> a = b)
   /\ (forall t a b, cH t a = cH t b -> a = b)
   /\ trusted ckey cH act_cmd ex_repo (empty_store ckey)
+  /\ cache_trusted ckey cH act_cmd ex_repo (Some (empty_cache ckey))
   /\ requests_ok act_cmd ex_repo [ex_repo; ex_repo]
-  /\ wf_repo ex_repo = true
+  /\ wf_repo ex_repo = true /\ shared_output_class ex_repo = None
   /\ finished ckey ex_done = true /\ all_ok ckey ex_done = true
   /\ sval ckey (st_store ckey ex_done) (s "//p:b") = Some [(s "b.out", s "x" ++ nl)]
   /\ i_ran (st_inv ckey ex_done 0) = [s "//p:a"] /\ i_ran (st_inv ckey ex_done 1) = [s "//p:b"].
 Proof.
-  exact (conj ckey_eqb_ok (conj cH_inj (conj (trusted_empty ckey cH act_cmd ex_repo) (conj ex_requests_ok ex_nonvacuous)))).
+  exact (conj ckey_eqb_ok (conj cH_inj (conj (trusted_empty ckey cH act_cmd ex_repo)
+           (conj (cache_trusted_empty ckey cH act_cmd ex_repo) (conj ex_requests_ok
+             (conj (proj1 ex_nonvacuous) (conj (proj1 ex_classes) (proj2 ex_nonvacuous)))))))).
 Qed.
+
+(* Non-vacuity of the cache: the first build of both targets fills an empty shared cache; plz-out is then
+   wiped; two processes ask for both targets again: everything is RETRIEVED (no command runs, i_ran stays
+   empty in both), nobody fails and plz-out is again that of the clean build. *)
+Example C31_cache_nonvacuous :
+  finished ckey ex_cached = true /\ all_ok ckey ex_cached = true
+  /\ sval ckey (st_store ckey ex_cached) (s "//p:b") = Some [(s "b.out", s "x" ++ nl)]
+  /\ i_ran (st_inv ckey ex_cached 0) = [] /\ i_ran (st_inv ckey ex_cached 1) = []
+  /\ i_ran (st_inv ckey ex_warm 0) = [s "//p:b"; s "//p:a"].
+Proof. exact ex_cache_nonvacuous. Qed.
